@@ -43,7 +43,7 @@ func vfPlace(o *Output, pos int, param, service []string) (paramReferrer, servic
 }
 
 func vfOutput() (Output, []string, []string) {
-	ln := vfBound("c06.len", 3, 8)
+	ln := vfBound("c06.len", 4, 8)
 	p0, p1 := vfStr("p0", ln), vfStr("p1", ln)
 	s0, s1 := vfStr("s0", ln), vfStr("s1", ln)
 	vfAssume(p0 != p1 && s0 != s1)
@@ -68,7 +68,7 @@ func vfIn(x string, set []string) bool {
 // missing name; declared names (todo ones included) are never reported.
 func VF_C06_params() {
 	o, params, _ := vfOutput()
-	x := vfStr("ref", vfBound("c06.len", 3, 8))
+	x := vfStr("ref", vfBound("c06.len", 4, 8))
 	pos := vfChoice("pos", 5)
 	referrer, _ := vfPlace(&o, pos, []string{x}, nil)
 	err := ValidateParamsExist(o)
@@ -91,7 +91,7 @@ func VF_C06_params() {
 // arguments, fields, decorator arguments).
 func VF_C06_services() {
 	o, _, services := vfOutput()
-	y := vfStr("ref", vfBound("c06.len", 3, 8))
+	y := vfStr("ref", vfBound("c06.len", 4, 8))
 	pos := 1 + vfChoice("pos", 4)
 	_, referrer := vfPlace(&o, pos, nil, []string{y})
 	err := ValidateServicesExist(o)
@@ -114,7 +114,7 @@ func VF_C06_services() {
 // diagnostics is the number of dangling references.
 func VF_C06_two() {
 	o, params, services := vfOutput()
-	ln := vfBound("c06.len", 3, 8)
+	ln := vfBound("c06.len", 4, 8)
 	x, y := vfStr("x", ln), vfStr("y", ln)
 	px, py := vfChoice("px", 4), 1+vfChoice("py", 3)
 	vfPlace(&o, px, []string{x, x}, nil)
